@@ -4,6 +4,18 @@ import json, os
 V = os.path.dirname(os.path.dirname(os.path.abspath(__file__)))
 
 CHECKS = {
+    'C05': ('hole-provenance rules on the layout-assertion templates (syn-based abstract interpreter) + gate truth table',
+            'Structural clauses on the extracted assertion templates: one offset assertion per emitted field (same member list and filter), expected number = StructMember.offset of the same member, offset_of!(this struct, that member); size assertion against Layouter[this type handle].size (layouter updated with this module) or the type\'s own size; assertions present iff derive_bytemuck_host_shareable && membership of the handle in the closure set seeded from every module-scope variable. With rustc\'s const evaluation this makes every compiling struct match naga\'s WGSL layout numbers.',
+            'Trusted: naga computes the WGSL layout (offsets/sizes); rustc const-evaluates assertions and lays out repr(C) as specified; Engine A semantics. The suite pins the reachable rows by snapshots, so the added value is mainly the one-to-one/identity provenance.',
+            'DESIGN.md section 3 C05'),
+    'C08': ('type-closure exhaustiveness against the naga TypeInner schema + 8-row truth table of the extracted selection predicate + single-producer rule',
+            'Every Handle<Type> field of naga::TypeInner (from the pinned source) is followed unconditionally by the closure function, which inserts every visited handle and is seeded from all global variables; the extracted emission predicate over shape-recognised atoms A/B/C is equivalent to (not A and B) or C on all 8 rows; only TypeInner::Struct yields items; the assembled output has exactly one producer of user struct items, a plain pass over module.types (UniqueArena).',
+            'Trusted: naga stores each type once; Engine A semantics.',
+            'DESIGN.md section 3 C08'),
+    'C09': ('extracted derive/repr/assert guards evaluated over the full 64-row truth table + option non-interference over the output grammar',
+            'Exhaustive over a finite domain: the guards of every pushed derive, of #[repr(C)] and of the layout assertions are extracted from the source and evaluated for all 64 assignments of the six atoms (4 switches, host-shareable, ends-in-runtime-array) against the property\'s table, including exactly the documented panic rows; no other section of the assembled output (and no condition outside the struct section) reads a WriteOptions field other than the validate/rustfmt gates.',
+            'Trusted: Engine A semantics; derive macros behave as documented; validate/rustfmt gates are C17/C19.',
+            'DESIGN.md section 3 C09'),
     'C06': ('output-grammar provenance rules + exhaustive leaf-type table lookup (syn-based abstract interpreter)',
             'Structural clauses on the struct item template: fields iterate the member list in order, filtered only by not-builtin, names by identity, type hole = the type table on module.types[member.ty] under options.matrix_vector_types; the table is looked up at the use site over its whole finite leaf domain (scalars, atomics, vec2-4, 9 matrix shapes x f32/f64 x Rust/Glam/Nalgebra) against oracle formulas; array/struct/runtime-array rows checked structurally.',
             'Trusted: Engine A semantics; oracle formulas of DESIGN appendix A.3; rustc layout is C05\'s subject.',
